@@ -329,6 +329,20 @@ example : pipelineReasons [.sort [("b", -1), ("a", 1)], .skip 1, .limit 3] sampl
     (runStages [.skip (-1)] sample).isNone = true := by
   decide +kernel
 
+/-- … the `$skip` / `$limit` stages by themselves, at full strength (no domain): the slice the
+    rules define, or OperationFailure exactly where the rules reject the argument — a negative
+    `$skip`, a `$limit` that is zero or negative. -/
+theorem skip_limit_stage (docs : List Val) (n : Int) :
+    Stage.apply docs (.skip n) = stagesVerdict (stageApply docs (.skip n)) ∧
+    Stage.apply docs (.limit n) = stagesVerdict (stageApply docs (.limit n)) ∧
+    (n < 0 → Stage.apply docs (.skip n) = .error .opFail) ∧
+    (n ≤ 0 → Stage.apply docs (.limit n) = .error .opFail) := by
+  refine ⟨?_, ?_, ?_, ?_⟩
+  · by_cases h : n < 0 <;> simp [Stage.apply, stageApply, stagesVerdict, h]
+  · by_cases h : n ≤ 0 <;> simp [Stage.apply, stageApply, stagesVerdict, h]
+  · intro h; simp [Stage.apply, h]
+  · intro h; simp [Stage.apply, h]
+
 /-- `$sort` and `find(sort=…)` are the same function of the documents inside the domain -/
 theorem agg_sort_eq_find_sort (spec : SortSpec) (docs : List Val)
     (h : specReasons spec docs = []) : aggSort spec docs = getDataset (some spec) docs := by
